@@ -215,7 +215,11 @@ fn containers_stable(seed: u64, tier: Tier, vv: &mut Vec<Line>) {
         let (n0, n1, fillv) = (i % 50, 60 + i % 9000, 1 + (i % 255) as u8);
         let mut rv: Vec<u8> = msg[..n0.min(msg.len())].to_vec();
         let base0 = rv.clone();
+        // grow with a non-zero fill, shrink, grow again with a ZERO fill inside the capacity already reserved
+        let (n2, n3) = (n1 / 3, n1 / 3 + (n1 - n1 / 3) / 2);
         ResizableBytes::resize(&mut rv, n1, fillv);
+        ResizableBytes::resize(&mut rv, n2, 0);
+        ResizableBytes::resize(&mut rv, n3, 0);
         let mut out = rv.clone();
         #[cfg(feature = "nightly")]
         {
@@ -225,9 +229,11 @@ fn containers_stable(seed: u64, tier: Tier, vv: &mut Vec<Line>) {
             hb.as_mut_slice().copy_from_slice(&base0);
             let mut lk = HeapBytes::from_slice_into_locked(&base0).expect("lock");
             let mut ul = HeapBytes::from_slice_into_locked(&base0).expect("lock").munlock().expect("unlock");
-            hb.resize(n1, fillv);
-            lk.resize(n1, fillv);
-            ul.resize(n1, fillv);
+            for (n, fv) in [(n1, fillv), (n2, 0), (n3, 0)] {
+                hb.resize(n, fv);
+                lk.resize(n, fv);
+                ul.resize(n, fv);
+            }
             if hb.as_slice() != rv || lk.as_slice() != rv || ul.as_slice() != rv {
                 out = b"CONTAINER-MISMATCH".to_vec();
             }
